@@ -77,9 +77,8 @@ def run_case(c):
             conn = SCPConnection("127.0.0.1", 17893, c["n_tries"], c["timeout"])
         else:
             conn = SCPConnection("127.0.0.1", n_tries=c["n_tries"], timeout=c["timeout"])
-        if (conn.n_tries, conn.default_timeout) != (c["n_tries"], c["timeout"]):
-            raise AssertionError("SCPConnection stored n_tries/timeout %r, constructed with %r"
-                                 % ((conn.n_tries, conn.default_timeout), (c["n_tries"], c["timeout"])))
+        # n_tries and timeout are set through the constructor only and never assigned afterwards: the oracle counts
+        # transmissions and measures retransmission spacing against the CONFIGURED values
         for _ in range(c.get("advance_seq", 0)):
             next(conn.seq)
         bursts = []
